@@ -160,6 +160,8 @@ impl Realizer {
             _ if !self.strings.is_empty() => {
                 Some(self.strings[(v as usize - 4) % self.strings.len()].clone())
             }
+            // the empty string is a value like any other (not a removal)
+            5 => Some(String::new()),
             _ => {
                 self.counter += 1;
                 Some(format!("u{}.{}", self.replica, self.counter))
